@@ -944,7 +944,7 @@ class AffInterp:
             vm = rhs if isinstance(rhs, VarMajor) else cur
             e = AnalysisError("%s:%d interleaved vector combined with a variable-major one" % (func.qualname, st.lineno))
             e.violation = ("LAYOUT-INTERLEAVE", func.qualname, "the packed vector of the linear system is interleaved (entry q + neq*i is variable q of cell i, as the stores [q::neq] say) but %s lays the per-equation arrays end to end (all cells of variable 0, then variable 1 ...): for neq > 1 every entry is added to the wrong unknown (scalar models are unaffected)" % vm.where,
-                           "varmajor", {"C06", "C01", "C04"})
+                           "varmajor", {"C06", "C01", "C04", "C13", "C14"})
             raise e
         try:
             if isinstance(cur, AArr):
